@@ -315,6 +315,9 @@ func (e *bEnv) FetchSourcePackage(ctx context.Context, sourceType string, u *url
 		addr = sourceType + "::" + addr
 	}
 	e.ev("fc:" + X(addr))
+	if e.yield {
+		time.Sleep(2 * time.Millisecond) // a download takes time: overlapping Add calls meet it in flight
+	}
 	if e.tick("fetch", addr) {
 		return resp, fmt.Errorf("injected fetch fault")
 	}
@@ -350,6 +353,9 @@ func writeContent(w *BWorld, content, dir string) error {
 		os.WriteFile(filepath.Join(dir, "k", "exec.sh"), []byte("#!/bin/sh\n"), 0755)
 		os.WriteFile(filepath.Join(dir, "k", "secret"), []byte(content), 0600)
 		os.Symlink("../m/main.tf", filepath.Join(dir, "k", "link"))
+		// link targets that are not in cleaned form must come back as recorded (seed C09-e)
+		os.Symlink("./exec.sh", filepath.Join(dir, "k", "link-dot"))
+		os.Symlink("../k/../m/main.tf", filepath.Join(dir, "k", "link-detour"))
 		os.WriteFile(filepath.Join(dir, "é x.tf"), []byte("é"), 0644)
 		if len(content) > 0 && content[len(content)-1]%2 == 0 {
 			// re-include a directory the built-in rules exclude
